@@ -237,6 +237,12 @@ class Ctx:
         for kid, (kf, n) in sorted(matched.items()):
             print("KNOWN-FINDING: property=%s %s [%s, %d case(s) this run]" % (self.prop, kf["what"], kid, n))
         paths = []
+        if violations or matched:
+            byclass = {}
+            for c in confirmed:
+                k = str(c["sig"].get("class") or c["sig"].get("deviation") or "-")
+                byclass[k] = byclass.get(k, 0) + 1
+            log("confirmed candidates by class:", json.dumps(byclass, sort_keys=True))
         if violations:
             os.makedirs(vdir, exist_ok=True)
             for i, c in enumerate(violations[:50]):
@@ -247,7 +253,8 @@ class Ctx:
                 json.dump(rec, open(path, "w"), indent=1)
                 paths.append(path)
                 print("VIOLATION property=%s replay=%s" % (self.prop, path))
-                log("   ", c["what"][:600])
+                if i < 10:
+                    log("   ", c["what"][:600])
         cov = {
             "states": max(self.states, 0),
             "transitions": max(self.transitions, 0),
